@@ -7,6 +7,7 @@ fn main() {
     match what.as_str() {
         "c02" => harness::d_verify::c02(&args),
         "c07" => harness::d_codec::c07(&args),
+        "c01" => harness::d_sign::c01(&args),
         "decoders" => harness::d_decode::decoders(&args),
         "replay-codec" => harness::d_codec::replay_codec(&args),
         _ => {
